@@ -383,7 +383,7 @@ class World:
         r2 = self.call(u._get_base_units, mkuc(u, b), False, sysname)
         if r2[0] == "ok":
             f2, b2 = r2[1]
-            if ucd(b2) != b or not close(f2, 1, exact):
+            if ucd(b2) != b or ((exact or finite(f2)) and not close(f2, 1, exact)):
                 self.fail("base-units:idempotence", f"{b} under {sysname} -> {f2} {ucd(b2)}")
         else:
             self.fail("base-units:idempotence", f"{b} under {sysname} raises {r2[1]}")
@@ -612,6 +612,9 @@ class World:
                     if r2[0] == "ok" and ucd(r2[1][1]) != r[2]:
                         fine = self.check_cached(d, eff, ("ok", None, r[2]))
                 if fine:
+                    if not exact and not finite(r[1]):
+                        self.count("float-range")
+                        return
                     back = self.call(u.Quantity(r[1], mkuc(u, r[2])).to, mkuc(u, d))
                     if back[0] != "ok" or not close(back[1].magnitude, m, exact):
                         self.fail("to-base-units:value", f"{m} {d} -> {r[1]} {r[2]} converts back to {back[1].magnitude if back[0] == 'ok' else back[1]}")
@@ -996,10 +999,20 @@ def run(ck):
                        "registries whose base units are non-multiplicative are outside the model (none exists in pint's files)",
                        "names added to groups are canonical unprefixed unit names or junk: prefixed units are never listed by get_compatible_units (C13's F9)",
                        "a cyclic group graph (only reachable through F65) ends a sequence: pint loops forever on it"]
+    import time
+    phases, t_last = {}, [time.time()]
+
+    def phase(name):
+        now = time.time()
+        phases[name] = round(now - t_last[0], 1)
+        t_last[0] = now
+    ck.extra["phase_seconds"] = phases
     fails = []
     qk = detect_quirks(fails)
+    phase("witnesses")
     ck.extra["quirks_reproduced"] = qk
     ok = ck.coq_build(["Properties/C14.vo", "Model/GroupsRun.vo", "Gen/DefaultReg.vo"])
+    phase("coq build")
     hdr = header(qk)
     cases, descs = [], []
 
@@ -1026,13 +1039,18 @@ def run(ck):
     for g in sorted(w.u._groups):
         w.apply(["members", g])
         w.apply(["gstate", g])
+    for g in sorted(w.u._groups):
+        w.apply(["members", g])
+    add(w, ("members", "bundled-groups"))
+    w = World(registry(), fails, "bundled-system-members")
+    w.setup_names()
     for s in sorted(w.u._systems):
         w.apply(["sysmembers", s])
         w.apply(["sstate", s])
-    for g in sorted(w.u._groups):
-        w.apply(["members", g])
-    add(w, ("members", "bundled"))
+        w.apply(["sysmembers", s])
+    add(w, ("members", "bundled-systems"))
 
+    phase("bundled members")
     # ---- (ii) every canonical unit under every system
     for sysname in SYSTEMS:
         w = None
@@ -1045,7 +1063,9 @@ def run(ck):
                 w.apply(["set_default", sysname])
             w.apply(["base", jd({n: F(1)}), True, None])
             if n in positive:
-                w.apply(["to_base", str(F(rng.randint(1, 60), rng.choice([1, 1, 2, 3, 8]))), jd({n: F(1)})])
+                # quick tier: the quantity-level step for every third unit, rotating with the system
+                if thorough or (i + SYSTEMS.index(sysname)) % 3 == 0:
+                    w.apply(["to_base", str(F(rng.randint(1, 60), rng.choice([1, 1, 2, 3, 8]))), jd({n: F(1)})])
             elif not ureg._units[n].is_logarithmic:
                 # offset units: quantity-level oracles only (the offset calculus is C06's)
                 q = ureg.Quantity(F(rng.randint(1, 60)), n)
@@ -1059,15 +1079,16 @@ def run(ck):
         add(w, ("base", str(sysname), "last"))
     ureg.default_system = "mks"
 
+    phase("unit x system")
     # ---- (iii) restricted compatible units
-    names = rng.sample(mult, 60 if thorough else 24) + ["meter", "pound", "gallon", "pint", "foot", "ton", "hundredweight", "second", "radian"]
+    names = rng.sample(mult, 60 if thorough else 8) + ["meter", "pound", "gallon", "pint", "foot", "ton", "hundredweight", "second", "radian"][:9 if thorough else 5]
     scopes = [None] + sorted(ureg._groups) + sorted(ureg._systems) + ["nosuch"]
     w = World(registry(), fails, "compat")
     w.canon, w.universe = w0.canon, w0.universe
     for k, n in enumerate(names):
         for sc in scopes:
             w.apply(["compat", jd({n: F(1)}), sc])
-        if k % 6 == 5:
+        if k % 3 == 2:
             add(w, ("compat", n))
             w = World(w.u, fails, "compat")
             w.canon, w.universe = w0.canon, w0.universe
@@ -1076,10 +1097,14 @@ def run(ck):
     w.apply(["compat", jd({"foot": F(3)}), "imperial"])
     add(w, ("compat", "tail"))
 
+    phase("compatible")
     # ---- (iv) ureg.sys.<system>.<name>
     spell = list(ureg._units.keys())
     for s in [x for x in SYSTEMS if x]:
-        items = list(canon) + rng.sample(spell, 80 if thorough else 25) + ["zork", "_private", "x__", "kilometer", "millipint", "dimensionless"]
+        # every canonical name for the systems that have variants (imperial_*, US_*); a sample elsewhere in the quick tier
+        full = thorough or s in ("imperial", "US")
+        items = (list(canon) if full else rng.sample(canon, 60)) + rng.sample(spell, 80 if thorough else 25) \
+            + ["zork", "_private", "x__", "kilometer", "millipint", "dimensionless", "pint", "ton", "gallon", "hundredweight"]
         w = World(ureg, fails, f"attr:{s}")
         w.canon, w.universe = w0.canon, w0.universe
         for i, it in enumerate(items):
@@ -1097,6 +1122,7 @@ def run(ck):
     w.apply(["attr", "_SI", "meter"])
     add(w, ("attr", "nosuch"))
 
+    phase("sys attr")
     # ---- (v) random compound quantities under every system
     pool = [n for n in mult if positive[n] and not n.startswith("delta_")]
     for sysname in SYSTEMS:
@@ -1113,14 +1139,16 @@ def run(ck):
         add(w, ("compound", str(sysname)))
     ureg.default_system = "mks"
 
+    phase("compound")
     # ---- (vi) sequences on the bundled registry
     dinfo = dict(units=[n for n in pool if n in w0.universe][:160] + ["pint", "gallon", "ton", "foot", "pound"])
     for k in range(24 if thorough else 6):
         w = World(registry(), fails, f"seq-default:{k}")
         w.setup_names()
-        random_ops(rng, w, dinfo, 30, allow_selfloop=(k % 3 == 0))
+        random_ops(rng, w, dinfo, 30 if thorough else 16, allow_selfloop=(k % 3 == 0))
         add(w, ("seq-default", k))
 
+    phase("sequences default")
     # ---- (vii) generated definition files
     ngen = 300 if thorough else 30
     tmpdir = tempfile.mkdtemp(prefix="c14_")
@@ -1156,8 +1184,23 @@ def run(ck):
             f.unlink()
         os.rmdir(tmpdir)
 
+    phase("generated")
     # ---- differ inside Coq
-    bad = ck.coq_mismatches("c14", hdr, cases, "ok", shard=12) if ok else None
+    # deal the runs out over the shards by estimated cost (set-heavy steps on the bundled registry dominate)
+    def cost(d):
+        wgt = {"members": 30, "sysmembers": 30, "compat": 20, "gstate": 8, "sstate": 8, "add_units": 30, "remove_units": 30,
+               "add_groups": 30, "remove_groups": 30, "get_group": 30}
+        k = 1 if d["registry"] == "default" else 0.05
+        return sum(k * wgt.get(o[0], 1) + 1 for o in d["ops"])
+    nsh = max(1, min(16, len(cases)))
+    order = sorted(range(len(cases)), key=lambda i: -cost(descs[i]))
+    bins = [order[i::nsh] for i in range(nsh)]
+    per = max(len(b) for b in bins)
+    perm = [i for b in bins for i in b + [b[-1]] * (per - len(b))]      # pad so that shard boundaries fall between bins
+    bad = ck.coq_mismatches("c14", hdr, [cases[i] for i in perm], "ok", shard=per) if ok else None
+    if bad is not None:
+        bad = sorted({perm[j] for j in bad})
+    phase("coq differ")
     ck.extra["model_vs_impl_cases"] = len(cases)
     ck.extra["model_vs_impl_steps"] = sum(len(d["ops"]) for d in descs)
     ck.extra["model_vs_impl_disagreements"] = None if bad is None else len(bad)
